@@ -91,6 +91,13 @@ CHECKS = {
             "histories (hostile attribute values, subjects differing in one field, file reopen) on Cache and Population, memory and file backed, "
             "comparing every query result and exception class with a dictionary model after each step.",
             PURE, "3/C19"),
+    "C20": ("fault_enumeration", "fault-injecting external tool (plan via environment) + offline oracle over the tool event log",
+            "Enumerates fault plans (site kind x first/second/every invocation x 18 verification faults, 10 sign/encrypt/decrypt faults, tool "
+            "missing / not executable / a directory) over response, assertion, both, request and in-ciphertext verification, statement signing, "
+            "assertion encryption and decryption with the first or second key, on valid and tampered messages. The driver marks injected events; "
+            "an accepted message needs a genuine un-faulted OK per required level, a tampered message is never accepted, an identity needs a "
+            "genuine decryption, and a sign/encrypt run without result must raise.",
+            TRUST, "3/C20"),
 }
 
 NOT_YET = {}
